@@ -78,7 +78,7 @@ func (h *HyperLogLog32) Union(a, b *HyperLogLog32) error {
 		return errors.New("card: mismatched precision")
 	}
 	ta := reflect.TypeOf(b.hash)
-	if reflect.TypeOf(b.hash) != ta {
+	if reflect.TypeOf(a.hash) != ta {
 		return errors.New("card: mismatched hash function")
 	}
 	if h.hash != nil && reflect.TypeOf(h.hash) != ta {
